@@ -78,6 +78,7 @@ PROBES = ['success_seen', 'pipelined', 'validator_async',
           'success_with_pending_request', 'probe_before_auth',
           'options_checked', 'honest_admitted', 'honest_rejected',
           'auth_completed_round_trip', 'empty_user_name',
+          'key_pairs_shared_by_two_connections',
           'guest_success', 'kbdint_success', 'pk_success', 'pw_success',
           'hostbased_request', 'hostbased_success',
           'pop_restrict', 'agent_used', 'agent_fault_fired', 'cert_offered',
@@ -155,7 +156,7 @@ def gen_plan(rng):
             'user': rng.choice(['alice', 'bob']),
             'cred': rng.choice(['password', 'wrong_password', 'key',
                                 'other_key', 'cert', 'bad_cert', 'kbd',
-                                'none_needed']),
+                                'none_needed', 'shared_key']),
             # the application's auth_completed() is a coroutine that needs
             # an answer of the client (it tries to open a connection back,
             # which this client refuses)
@@ -228,7 +229,7 @@ def valid_plan(plan):
             return plan['honest']['user'] in ('alice', 'bob') and \
                 plan['honest']['cred'] in (
                     'password', 'wrong_password', 'key', 'other_key', 'cert',
-                    'bad_cert', 'kbd', 'none_needed') and \
+                    'bad_cert', 'kbd', 'none_needed', 'shared_key') and \
                 (plan['honest']['cred'] != 'none_needed' or plan['guest'])
 
         if 'hb' in plan and (not isinstance(plan['hb']['trust'], bool) or
@@ -1026,6 +1027,12 @@ def run_honest(world, plan):
     elif cred == 'none_needed':
         user = 'guest'
         expect = True
+    elif cred == 'shared_key':
+        # key pairs loaded once and used for two connections at the same
+        # time, to servers that ask for different signature algorithms
+        user = 'bob'
+        kw = dict(client_keys=asyncssh.load_keypairs([key('user_rsa')]))
+        expect = True
     else:
         user = 'kbd'
         kw = dict(kbdint_auth=True, password=None,
@@ -1038,11 +1045,37 @@ def run_honest(world, plan):
         opts = client_opts(username=user,
                            known_hosts=([pubkey('host_ed25519')], [], []))
         opts.update(kw)
+        acc2 = None
+
+        if cred == 'shared_key':
+            acc.close()
+            await acc.wait_closed()
+            acc = await asyncssh.listen(
+                '127.0.0.1', 22, server_factory=sfactory,
+                **server_opts(login_timeout=60,
+                              signature_algs=['rsa-sha2-256']))
+            acc2 = await asyncssh.listen(
+                '127.0.0.1', 23, server_factory=sfactory,
+                **server_opts(login_timeout=60,
+                              signature_algs=['rsa-sha2-512']))
+            sim.probes['key_pairs_shared_by_two_connections'] += 1
+
+            async def second():
+                try:
+                    c2 = await asyncssh.connect('127.0.0.1', 23, **opts)
+                    res['conn2'] = c2
+                except Exception as exc: # pylint: disable=broad-except
+                    res['exc2'] = exc
+
+            t2 = sim.track('second-conn', second())
 
         try:
             res['conn'] = await asyncssh.connect('127.0.0.1', 22, **opts)
         except Exception as exc: # pylint: disable=broad-except
             res['exc'] = exc
+
+        if cred == 'shared_key':
+            await t2
 
         if res['conn'] is not None:
             # an admitted client is served
@@ -1063,14 +1096,28 @@ def run_honest(world, plan):
             res['conn'].close()
             await res['conn'].wait_closed()
 
+        if res.get('conn2') is not None:
+            res['conn2'].close()
+            await res['conn2'].wait_closed()
+
         acc.close()
         await acc.wait_closed()
+
+        if acc2 is not None:
+            acc2.close()
+            await acc2.wait_closed()
 
     world.start(main())
     world.run_phase()
     o = app.get('o')
 
-    if expect:
+    if expect and cred == 'shared_key' and res['conn'] is not None and \
+            res.get('conn2') is None:
+        world.violation('valid-credential-rejected',
+                        'two connections use the same loaded key pairs at '
+                        'the same time: the second one was not admitted: %r'
+                        % (res.get('exc2'),), sig=cred)
+    elif expect:
         if res['conn'] is None:
             world.violation('valid-credential-rejected',
                             'honest client with %s for %s was not admitted: '
